@@ -411,7 +411,7 @@ def gen_plan(seed: int, tier: str) -> dict:
             partials.update(parts)
             progs.append({"src": src, "data": data})
     # sentinel partials whose output shows the caller's globals and data (contention probes)
-    partials.setdefault("gvp", "[gvp {{ gv }}|{{ user.name }}|{{ tenant }}]")
+    partials.setdefault("gvp", "[gvp {{ gv }}|{{ user.name }}|{{ tenant }}|{{ matter_ns }}]")
     partials.setdefault("dir/gvq.html", "[gvq {{ gv }}|{{ user.name }}{% include 'gvp' %}]")
     if rng.random() < 0.3:
         for p in progs:
